@@ -337,7 +337,7 @@ def _split_eval_outputs(out):
     return vals
 
 
-def coq_eval(imports, exprs, shard=250, jobs=NCPU, timeout=900, scratch=None):
+def coq_eval(imports, exprs, shard=250, jobs=NCPU, timeout=1800, scratch=None):
     """Evaluate each Gallina expression with vm_compute inside coqc.
 
     imports: text placed at the top of each generated file (Require Import ...).
@@ -361,6 +361,7 @@ def coq_eval(imports, exprs, shard=250, jobs=NCPU, timeout=900, scratch=None):
         results = {}
         pending = list(files)
         running = []
+        late = []
         while pending or running:
             while pending and len(running) < jobs:
                 f = pending.pop(0)
@@ -370,11 +371,21 @@ def coq_eval(imports, exprs, shard=250, jobs=NCPU, timeout=900, scratch=None):
                 running.append((f, p))
             f, p = running.pop(0)
             o, e = p.communicate()
+            if p.returncode == 124:
+                # killed by the time limit (a loaded machine): once everything else is done, give this shard one more, longer, run on its own
+                late.append(f)
+                continue
             if p.returncode != 0:
                 for _, q in running:
                     q.kill()
                 raise RuntimeError("coqc failed on generated %s.v: %s" % (f, (o + e)[-2000:]))
             results[f] = _split_eval_outputs(o)
+        for f in late:
+            p = subprocess.run("ulimit -s unlimited 2>/dev/null; timeout %d coqc -Q %s SV %s.v" % (4 * timeout, COQ, f),
+                               shell=True, cwd=tmp, stdout=subprocess.PIPE, stderr=subprocess.PIPE, text=True)
+            if p.returncode != 0:
+                raise RuntimeError("coqc failed on generated %s.v (second, longer run; rc=%d): %s" % (f, p.returncode, (p.stdout + p.stderr)[-2000:]))
+            results[f] = _split_eval_outputs(p.stdout)
         vals = []
         for k, f in zip(range(0, len(exprs), shard), files):
             got = results[f]
